@@ -98,10 +98,10 @@ def r_reader_state(prog, tier):
         ys = [n for n in cfg.eval_nodes() if n.kind == 'stmt' and isinstance(n.ast, ast.Expr)
               and isinstance(n.ast.value, ast.Yield)]
         if len(ys) != 1:
-            raise Unrecognised('%s: %d yield statements' % (f.fq, len(ys)))
+            raise Unrecognised('%s: %d yield statements' % (f.fq, len(ys)), partial=obs)
         y = ys[0]
         if not y.loops:
-            raise Unrecognised('%s: yield outside a loop' % f.fq)
+            raise Unrecognised('%s: yield outside a loop' % f.fq, partial=obs)
         main = y.loops[0]
         cross = dict((nm2, 'feeds the sentence id (running number, or id read at the start of the sentence)')
                      for nm2 in _sid_sources(f))
